@@ -8,16 +8,17 @@ const E = require('../lib/espace');
 // attribute events: plain attributes + directives + models
 const ATTR = Object.assign({}, Object.fromEntries(E.ALL_ATTRS.map((k) => [k, E.ATTRS[k].src])), {
   'v-foo': 'v-foo:arg_m={x}', 'v-show': 'v-show={c}', 'v-html': 'v-html={x}', 'v-model': 'v-model={mv}', 'v-model-arg': "v-model={[o.p, 'arg', ['trim']]}",
+  typeExpr: 'type={"checkbox"}', typeDyn: 'type={t}', typeStatic: 'type="radio"',
   'v-slots': 'v-slots={{ foo: h2 }}', 'v-slots-id': 'v-slots={vsl}',
 });
 const ATTR_KEYS = Object.keys(ATTR);
 // children events for element and component hosts alike
 const CHILD = {
   text: 'a', bx: '{x}', ux: '{u}', call: '{f()}', el: '<b/>', frag: '<>{x}</>', comp: '<B>{x}</B>', compEl: '<B><i/></B>', compText: '<B>t</B>',
-  arrow: '{() => [x]}', objlit: '{{ default: () => [y] }}', spread: '{...xs}', cond: '{c && <i/>}', empty: '{}', nestedDyn: '<div><B>{y}</B></div>',
+  parenIdent: '{(x)}', parenSlots: '{(vsl)}', identSlots: '{vsl}', callSlots: '{(() => vsl)()}', parenCall: '{(f())}', seqIdent: '{(0, x)}', arrow: '{() => [x]}', objlit: '{{ default: () => [y] }}', spread: '{...xs}', cond: '{c && <i/>}', empty: '{}', nestedDyn: '<div><B>{y}</B></div>',
 };
 const CHILD_KEYS = Object.keys(CHILD);
-const HOSTS = ['div', 'Comp', 'frag', 'KeepAlive', 'Unbound'];
+const HOSTS = ['div', 'Comp', 'frag', 'KeepAlive', 'Unbound', 'input'];
 // module statements for history cases (cross-statement state: slot flag stack, counters)
 const STMT = {
   fragId: '<>{x}</>', compId: '<Comp>{x}</Comp>', compCall: '<Comp>{f()}</Comp>', nested: '<Comp><B>{x}</B><div/></Comp>', plain: '<div>a</div>', compText: '<Comp>a</Comp>',
@@ -43,7 +44,7 @@ function spaces(tier) {
       *gen() {
         const optsList = thorough ? OTHER_OPTS : OTHER_OPTS.filter((o) => (!o.mergeProps) + (o.transformOn ? 1 : 0) + (!o.enableObjectSlots) <= 1);
         for (const host of HOSTS) {
-          const attrSeqs = host === 'frag' ? [[]] : [...sequences(ATTR_KEYS.length, aLen, { distinct: true })].filter((s) => thorough || s.length < 2 || s.some((i) => /^v-|^sp|^on$|nativeOn|cls|sty|onClick/.test(ATTR_KEYS[i])));
+          const attrSeqs = host === 'frag' ? [[]] : [...sequences(ATTR_KEYS.length, aLen, { distinct: true })].filter((s) => thorough || s.length < 2 || s.some((i) => /^v-|^sp|^on$|nativeOn|cls|sty|onClick|^type/.test(ATTR_KEYS[i])));
           for (const as of attrSeqs) for (const cs of sequences(CHILD_KEYS.length, as.length === 2 ? Math.min(cLen, 1) : cLen, { ok: (idx, pos) => !(pos > 0 && CHILD_KEYS[idx[pos]] === 'text' && CHILD_KEYS[idx[pos - 1]] === 'text') })) {
             for (const o of (as.length + cs.length <= 2 ? optsList : [optsList[0]])) yield { sp: 'E', host, at: as.map((i) => ATTR_KEYS[i]), ch: cs.map((i) => CHILD_KEYS[i]), o };
           }
